@@ -9,6 +9,9 @@ CLAIMED = {
  "C02": dict(text="Bounded symbolic execution of the real tangent code on arcs with symbolic points (closed-form tangent oracle) and of the real matrix assembly on catalogue tissues with one symbolic unit tangent per (interface, junction); every coefficient, row and column obligation is an SMT query over all values, with the known defect regions split off by the solver.",
              note="Floats as reals; circle-fit libraries stubbed by the circumcentre contract (the repo's objective is checked to vanish there); 2..5 (9 thorough) points per interface; catalogue topologies only; counterexamples of the tissue-level obligations are replayed with the tangent stub retained.",
              ref="3/C02"),
+ "C04": dict(text="The real curvature, pressure-row and pressure-solve code runs on symbolic inputs: per-point and total curvature signs on symbolic arcs, exact zero / scale / translation / reflection behaviour of the turning estimate, the +-1 pair and right-hand side of a row for every storage direction and orientation pattern of two symbolic cells, and the bordered normal equations, zero-sum, linearity and zero-for-isolated-cells of the solve with symbolic tensions.",
+             note="Two numerical-accuracy clauses (3% turning accuracy, correlation >= 0.9) are transcendental and not claimed; np.gradient shimmed by its documented formula; exact rational inverse on concrete geometry; per-point sign only for uniformly sampled arcs (n<=9) and free 3-point arcs.",
+             ref="3/C04"),
  "C05": dict(text="The real ForceMatrix.solve runs on symbolic matrices; what reaches inv / nnls / lsq_linear / lmfit is captured at the library stub and compared with the definition of the augmented problem; path logic (square/regular/negative) is explored by forking; optimality is reduced to the back-ends' KKT contracts and the multiplier sign.",
              note="Back-ends are trusted to return a KKT point (documented optimality); inverse modelled by its defining equation; rounding as a bounded perturbation; T3/K3 (T4, K3-n0 thorough) system shapes.",
              ref="3/C05"),
